@@ -86,14 +86,14 @@ theorem TextSim.trimmed {cs : CharSpec} {t' t : Text} (h : TextSim cs.uws t' t) 
     t'.trimmed cs = t.trimmed cs := by
   unfold Text.trimmed; rw [h.outerTrimmed]
 
-theorem appendFrag_frags (t : Text) (f : Frag) :
+theorem appendFrag_frags_sim (t : Text) (f : Frag) :
     (t.appendFrag f).frags = if f.text.isEmpty then t.frags else t.frags ++ [f] := by
   unfold Text.appendFrag
   by_cases h1 : t.span.stop ≤ f.offset <;> by_cases h2 : f.text.isEmpty = true <;> simp [h1, h2]
 
 theorem appendStr_frags (t : Text) (s : List Char) (off : Nat) :
     (t.appendStr s off).frags = if s.isEmpty then t.frags else t.frags ++ [⟨s, off, false⟩] := by
-  unfold Text.appendStr; rw [appendFrag_frags]
+  unfold Text.appendStr; rw [appendFrag_frags_sim]
 
 section
 variable {uws : Char → Bool}
@@ -101,7 +101,7 @@ variable {uws : Char → Bool}
 theorem TextSim.appendFrag {t' t : Text} {f' f : Frag} (h : TextSim uws t' t) (hf : FragSim uws f' f)
     (he : f'.text.isEmpty = f.text.isEmpty) : TextSim uws (t'.appendFrag f') (t.appendFrag f) := by
   unfold TextSim
-  rw [appendFrag_frags, appendFrag_frags, he]
+  rw [appendFrag_frags_sim, appendFrag_frags_sim, he]
   split
   · exact h
   · exact LRel.append h (.cons hf .nil)
